@@ -46,6 +46,32 @@ def _manager():
     return cm
 
 
+_console = None
+_prompts: list = []
+
+
+def _on_prompt(partial):
+    _prompts.append(partial)
+
+
+def _console_line(cmd: str, args):
+    """The command line exactly as the console builds it: ConsoleAddon.console_command(cmd, *args) sends it to the
+    status-bar prompt (signals.status_prompt_command)."""
+    global _console
+    import types as pytypes
+
+    from mitmproxy.tools.console import consoleaddons, signals
+
+    if _console is None:
+        signals.status_prompt_command.connect(_on_prompt)
+        _console = consoleaddons.ConsoleAddon(pytypes.SimpleNamespace())
+    del _prompts[:]
+    _console.console_command(cmd, *args)
+    if len(_prompts) != 1 or not isinstance(_prompts[0], str):
+        raise RuntimeError("console_command sent %d prompts" % len(_prompts))
+    return _prompts[0]
+
+
 def _cps(s: str):
     return [ord(c) for c in s]
 
@@ -65,8 +91,8 @@ class Check(core.PropertyCheck):
     ASSUMPTIONS = (
         "the registered test commands (varargs of type str and of type mitmproxy.types.CmdArgs) are harness code; "
         "everything between command_lexer.quote and the call of the command function is mitmproxy's",
-        "command lines are built the way consoleaddons.console_command builds them (command, quoted arguments, trailing "
-        "space) with the separator generalised to any run of unquoted whitespace",
+        "lines with a single-space separator are built by the real ConsoleAddon.console_command (captured from "
+        "signals.status_prompt_command); for other separators the harness joins command_lexer.quote(arg) itself",
         "the projection is the identity on strings (code point sequences); no oracle is involved",
     )
 
@@ -77,9 +103,9 @@ class Check(core.PropertyCheck):
         names = {k: tuple(_cps(v)) for k, v in CMD.items()}
         if tier == "quick":
             return {"Alphabet": frozenset(A_QUICK), "MaxLen": 3, "MaxLen2": 1, "Seps": frozenset(SEPS), "SepLen": 2,
-                    "CmdName": names}
+                    "CmdName": names, "ExpandTabs": False}
         return {"Alphabet": frozenset(A_THOROUGH), "MaxLen": 4, "MaxLen2": 2, "Seps": frozenset(SEPS), "SepLen": 2,
-                "CmdName": names}
+                "CmdName": names, "ExpandTabs": False}
 
     def model_runs(self, ctx):
         if ctx.quick:
@@ -128,7 +154,10 @@ class Check(core.PropertyCheck):
         sep = _s(sc["sep"])
         trace = []
         try:
-            line = CMD[pt] + "".join(sep + command_lexer.quote(a) for a in args) + " "
+            if sep == " " and not sc.get("manual"):
+                line = _console_line(CMD[pt], args)          # the real console.command path
+            else:                                            # other separators: what a user would type between quoted args
+                line = CMD[pt] + "".join(sep + command_lexer.quote(a) for a in args) + " "
         except Exception as e:
             trace.append({"k": "line", "pt": pt, "sent": [_cps(a) for a in args], "line": []})
             trace.append({"k": "call", "outcome": "quote:" + type(e).__name__, "recv": []})
